@@ -2,7 +2,7 @@
 """Fail-closed translator: arithmetic and expression-level code of votelib -> Gallina.
 
 usage: py2v.py <repo> <outdir>
-Writes <outdir>/{Divisor,Quota,Pairwin,Rankscore,Threshold,Approval,Openlist}.v and <outdir>/STATUS.json
+Writes <outdir>/{Divisor,Quota,Pairwin,Rankscore,Threshold,Approval,Openlist,Signatures}.v, <outdir>/Signatures.json and <outdir>/STATUS.json
 (per unit: status ok | partial | failed, per definition ok | "unsupported: <why> at line N: <ast node>").
 
 1. Untyped function translator (component/divisor.py, component/quota.py).  Accepted subset (anything else raises
@@ -21,6 +21,10 @@ Writes <outdir>/{Divisor,Quota,Pairwin,Rankscore,Threshold,Approval,Openlist}.v 
    subset and TYPED_JOBS / RANK_TYPED for what is extracted from which method (whole body, the condition of a comprehension,
    a loop's test, the statements up to a local).  Parameters of a generated definition are the attributes and arguments
    the code reads, with declared types; locals and loop variables are bound by position, so renaming them changes nothing.
+5. Class / signature tables (every class of votelib/**/*.py -> Gen/Signatures.v + Signatures.json): how to_dict comes about and its
+   keys, constructor parameters and how __init__ stores each (Stored | StoredAs | Transformed line | NotStored), attribute writes after
+   construction, mutable default arguments, evaluate / convert / validate parameter lists - see the comment above class SigTables.
+   Nothing is rejected here: a form that is not read as a verbatim store is recorded as Transformed (the proofs then do not cover it).
 The reading of the Python primitives is Prelude/PyNum.v and Prelude/PyList.v (trusted base).
 tools/gentie_selftest.py replays source edits (equivalent rewrites, semantic changes, untranslatable forms) against the
 translator and the Props/GenTie_*.v proofs.
@@ -1563,6 +1567,696 @@ RANK_TYPED = [
 ]
 
 
+# ---------------------------------------------------------------- part 5: class / signature tables (Gen/Signatures.v)
+# For EVERY class of votelib/**/*.py (no typing needed, nothing is rejected: what the analysis cannot read as a verbatim store is
+# recorded as Transformed with its source line, so the table fails closed on the side of the proofs that consume it):
+#   how to_dict comes about (the @simple_serialization decorator on the class itself / inherited from a decorated base / written by
+#   hand / none) and which keys it emits (serialize_params, else the parameter names of the __init__ the DECORATED class resolves to -
+#   what inspect.signature(class_.__init__) sees at decoration time);
+#   the constructor parameters (of the __init__ the class itself resolves to) in order, with kind and default, and for each how
+#   __init__ stores it:  Stored        exactly one store `self.p = p`, an unconditional top-level statement of __init__ (or of the base
+#                                      __init__ it is handed to verbatim by the one top-level super().__init__ call), p never rebound,
+#                                      self.p / p never updated in place inside __init__, no setattr / vars / __dict__ / escaping self
+#                        StoredAs q    the same under another attribute name
+#                        NotStored     the parameter is never read by __init__
+#                        Transformed   anything else (line and text of the first statement that breaks the pattern);
+#   the methods other than __init__ that write self.<attr> (assignment, deletion, augmented assignment, subscript store, a call of a
+#   mutating container method) - the mutation sites;  the accepts_seats class attribute;  the parameter lists of evaluate / convert /
+#   validate (first definition along the MRO).
+# Plus, for every function and method of the package, the default arguments that are dict / list / set displays (or comprehensions /
+# dict() list() set() calls) - the shared mutable defaults.
+# Base classes are resolved by name through the module's imports; the MRO is the C3 linearisation over the votelib bases (a base
+# outside votelib is recorded by name and otherwise treated as `object`, except that a constructor inherited from it is 'external').
+SIG_METHODS = ('evaluate', 'convert', 'validate')
+SIG_MUTATORS = ('append', 'extend', 'insert', 'remove', 'pop', 'clear', 'sort', 'reverse', 'update', 'setdefault', 'popitem', 'add',
+                'discard', 'difference_update', 'intersection_update', 'symmetric_difference_update', 'appendleft', 'popleft',
+                'subtract', '__setitem__', '__delitem__')
+SIG_DECORATOR = 'votelib.persist.simple_serialization'
+
+
+def _sig_scan(repo):
+    """{module name: dict(rel, tree, src, classes {name: ClassDef}, imports {local name: dotted target})}"""
+    mods = {}
+    root = os.path.join(repo, 'votelib')
+    for dp, dn, files in os.walk(root):
+        dn.sort()
+        for f in sorted(files):
+            if not f.endswith('.py'):
+                continue
+            path = os.path.join(dp, f)
+            rel = os.path.relpath(path, repo)
+            name = rel[:-3].replace(os.sep, '.')
+            pkg = name
+            if name.endswith('.__init__'):
+                name = name[:-9]
+                pkg = name
+            else:
+                pkg = name.rsplit('.', 1)[0]
+            src = open(path).read()
+            tree = ast.parse(src)
+            imports = {}
+            for n in tree.body:
+                if isinstance(n, ast.Import):
+                    for al in n.names:
+                        if al.asname:
+                            imports[al.asname] = al.name
+                        else:
+                            imports[al.name.split('.')[0]] = al.name.split('.')[0]
+                elif isinstance(n, ast.ImportFrom):
+                    base = n.module or ''
+                    if n.level:
+                        up = pkg.split('.')
+                        up = up[:len(up) - (n.level - 1)] if n.level > 1 else up
+                        base = '.'.join(up + ([n.module] if n.module else []))
+                    for al in n.names:
+                        imports[al.asname or al.name] = base + '.' + al.name
+            mods[name] = dict(rel=rel, tree=tree, src=src, imports=imports,
+                              classes={n.name: n for n in tree.body if isinstance(n, ast.ClassDef)})
+    return mods
+
+
+def _sig_dotted(e):
+    """a.b.c as a list of names, or None"""
+    parts = []
+    while isinstance(e, ast.Attribute):
+        parts.append(e.attr)
+        e = e.value
+    if isinstance(e, ast.Name):
+        parts.append(e.id)
+        return parts[::-1]
+    return None
+
+
+def collections_counter(it):
+    import collections
+    return collections.Counter(it)
+
+
+class SigTables:
+    def __init__(self, repo):
+        self.mods = _sig_scan(repo)
+        self.keys = [(m, c) for m in self.mods for c in self.mods[m]['classes']]
+        self._mro, self._meth = {}, {}
+        # module of every function definition; module-level names bound exactly once, by a plain assignment at top level
+        self.fn_mod, self.consts = {}, {}
+        for m, info in self.mods.items():
+            for n in ast.walk(info['tree']):
+                if isinstance(n, (ast.FunctionDef, ast.AsyncFunctionDef)):
+                    self.fn_mod[id(n)] = m
+            bound = collections_counter(x.id for x in ast.walk(info['tree']) if isinstance(x, ast.Name) and isinstance(x.ctx, (ast.Store, ast.Del)))
+            cs = {}
+            for st_ in info['tree'].body:
+                tg, val = None, None
+                if isinstance(st_, ast.Assign) and len(st_.targets) == 1 and isinstance(st_.targets[0], ast.Name):
+                    tg, val = st_.targets[0].id, st_.value
+                elif isinstance(st_, ast.AnnAssign) and isinstance(st_.target, ast.Name) and st_.value is not None:
+                    tg, val = st_.target.id, st_.value
+                if tg is not None and bound[tg] == 1:
+                    cs[tg] = val
+            self.consts[m] = cs
+
+    def node(self, key):
+        return self.mods[key[0]]['classes'][key[1]]
+
+    def resolve(self, mod, e):
+        """dotted name an expression of module `mod` refers to"""
+        parts = _sig_dotted(e)
+        if parts is None:
+            return None
+        m = self.mods[mod]
+        head = parts[0]
+        if head in m['classes'] and len(parts) == 1:
+            return mod + '.' + head
+        if head in m['imports']:
+            return '.'.join([m['imports'][head]] + parts[1:])
+        return '.'.join(parts)
+
+    def class_key(self, dotted):
+        if dotted and '.' in dotted:
+            m, c = dotted.rsplit('.', 1)
+            if m in self.mods and c in self.mods[m]['classes']:
+                return (m, c)
+        return None
+
+    def bases(self, key):
+        """(votelib base keys in order, names of the other bases)"""
+        inside, outside = [], []
+        for b in self.node(key).bases:
+            d = self.resolve(key[0], b)
+            k = self.class_key(d)
+            if k is not None:
+                inside.append(k)
+            else:
+                outside.append(d or ast.unparse(b))
+        return inside, outside
+
+    def mro(self, key):
+        if key in self._mro:
+            return self._mro[key]
+        self._mro[key] = [key]          # guard against cycles
+        seqs = [list(self.mro(b)) for b in self.bases(key)[0]] + [list(self.bases(key)[0])]
+        out = [key]
+        while any(seqs):
+            seqs = [s for s in seqs if s]
+            for s in seqs:
+                h = s[0]
+                if not any(h in t[1:] for t in seqs):
+                    break
+            else:
+                raise Unsupported('inconsistent class hierarchy at %s.%s' % key)
+            out.append(h)
+            for s in seqs:
+                if s and s[0] == h:
+                    del s[0]
+        self._mro[key] = out
+        return out
+
+    def methods(self, key):
+        if key not in self._meth:
+            self._meth[key] = {m.name: m for m in self.node(key).body if isinstance(m, (ast.FunctionDef, ast.AsyncFunctionDef))}
+        return self._meth[key]
+
+    def find_method(self, key, name, after=None):
+        """(owner key, FunctionDef) of the first definition along the MRO (after the class `after`, for super())"""
+        mro = self.mro(key)
+        if after is not None:
+            mro = mro[mro.index(after) + 1:] if after in mro else []
+        for k in mro:
+            if name in self.methods(k):
+                return k, self.methods(k)[name]
+        return None, None
+
+    def external_bases(self, key):
+        out = []
+        for k in self.mro(key):
+            for o in self.bases(k)[1]:
+                if o not in out and o != 'object':
+                    out.append(o)
+        return out
+
+    def decorated(self, key):
+        decs = [self.resolve(key[0], d) for d in self.node(key).decorator_list]
+        return SIG_DECORATOR in decs, [d or '?' for d in decs if d != SIG_DECORATOR]
+
+    def class_attr(self, key, name):
+        """the constant assigned to the class attribute `name` by the first class of the MRO that assigns it: (found, value node)"""
+        for k in self.mro(key):
+            for s in self.node(k).body:
+                tg = s.targets if isinstance(s, ast.Assign) else [s.target] if isinstance(s, ast.AnnAssign) and s.value is not None else []
+                if any(isinstance(t, ast.Name) and t.id == name for t in tg):
+                    return True, s.value
+            if name in self.methods(k):
+                return True, None
+        return False, None
+
+    # ---- parameters
+    def default_of(self, d, mod=None):
+        """(tag, payload); a default that names a module-level constant (bound once, at top level) is read as that constant's value"""
+        if d is None:
+            return ('DReq', None)
+        if isinstance(d, ast.Name) and mod is not None and d.id in self.consts.get(mod, {}):
+            inner = self.consts[mod][d.id]
+            if not isinstance(inner, ast.Name):
+                return self.default_of(inner, None)
+        if isinstance(d, ast.Constant):
+            if d.value is None:
+                return ('DNone', None)
+            if isinstance(d.value, bool):
+                return ('DBool', d.value)
+            if isinstance(d.value, int):
+                return ('DInt', d.value)
+            if isinstance(d.value, str):
+                return ('DStr', d.value)
+        if isinstance(d, ast.UnaryOp) and isinstance(d.op, ast.USub) and isinstance(d.operand, ast.Constant) \
+                and isinstance(d.operand.value, int) and not isinstance(d.operand.value, bool):
+            return ('DInt', -d.operand.value)
+        if isinstance(d, ast.Dict) and not d.keys:
+            return ('DEmptyDict', None)
+        if isinstance(d, ast.List) and not d.elts:
+            return ('DEmptyList', None)
+        if isinstance(d, ast.Call) and isinstance(d.func, ast.Name) and d.func.id in ('dict', 'list') and not d.args and not d.keywords:
+            return ('DEmptyDict' if d.func.id == 'dict' else 'DEmptyList', None)      # dict() / list(): the same fresh empty container
+        if _sig_mutable_default(d):
+            return ('DMutable', ast.unparse(d))
+        return ('DOther', ast.unparse(d))
+
+    def params(self, fd, skip_first=True):
+        """[(name, kind, default)] of a function definition (without self)"""
+        a = fd.args
+        mod = self.fn_mod.get(id(fd))
+        pos = a.posonlyargs + a.args
+        dfl = [None] * (len(pos) - len(a.defaults)) + list(a.defaults)
+        out = [(x.arg, 'PPosOnly' if i < len(a.posonlyargs) else 'PPos', self.default_of(d, mod)) for i, (x, d) in enumerate(zip(pos, dfl))]
+        if skip_first and out:
+            out = out[1:]
+        if a.vararg:
+            out.append((a.vararg.arg, 'PVarPos', ('DReq', None)))
+        for x, d in zip(a.kwonlyargs, a.kw_defaults):
+            out.append((x.arg, 'PKwOnly', self.default_of(d, mod)))
+        if a.kwarg:
+            out.append((a.kwarg.arg, 'PVarKw', ('DReq', None)))
+        return out
+
+    # ---- writes to self.<attr>
+    @staticmethod
+    def self_name(fd):
+        a = fd.args.posonlyargs + fd.args.args
+        return a[0].arg if a else None
+
+    def writes(self, fd):
+        """[(attr, kind 'assign'|'inplace', node)] for every write to <self>.<attr> inside fd"""
+        me = self.self_name(fd)
+        out = []
+        if me is None:
+            return out
+
+        def attr_of(t):
+            if isinstance(t, ast.Attribute) and isinstance(t.value, ast.Name) and t.value.id == me:
+                return t.attr
+            return None
+
+        def targets(t):
+            if isinstance(t, (ast.Tuple, ast.List)):
+                for x in t.elts:
+                    yield from targets(x)
+            elif isinstance(t, ast.Starred):
+                yield from targets(t.value)
+            else:
+                yield t
+        for n in ast.walk(fd):
+            tg = []
+            if isinstance(n, ast.Assign):
+                tg = [x for t in n.targets for x in targets(t)]
+            elif isinstance(n, (ast.AugAssign, ast.AnnAssign)):
+                tg = [n.target]
+            elif isinstance(n, (ast.For, ast.AsyncFor)):
+                tg = list(targets(n.target))
+            elif isinstance(n, (ast.With, ast.AsyncWith)):
+                tg = [x for it in n.items if it.optional_vars is not None for x in targets(it.optional_vars)]
+            elif isinstance(n, ast.Delete):
+                tg = [x for t in n.targets for x in targets(t)]
+            elif isinstance(n, ast.comprehension):
+                tg = list(targets(n.target))
+            for t in tg:
+                a = attr_of(t)
+                if a is not None:
+                    out.append((a, 'assign', n))
+                elif isinstance(t, ast.Subscript):
+                    b = t.value
+                    while isinstance(b, ast.Subscript):
+                        b = b.value
+                    if attr_of(b) is not None:
+                        out.append((attr_of(b), 'inplace', n))
+            if isinstance(n, ast.Call) and isinstance(n.func, ast.Attribute) and n.func.attr in SIG_MUTATORS:
+                b = n.func.value
+                while isinstance(b, ast.Subscript):
+                    b = b.value
+                if attr_of(b) is not None:
+                    out.append((attr_of(b), 'inplace', n))
+        return out
+
+    @staticmethod
+    def stored_value(n, attr, me):
+        """the plain name a top-level statement `n` stores into <me>.<attr> (each target of n paired with its value), or None"""
+        def is_attr(t):
+            return isinstance(t, ast.Attribute) and isinstance(t.value, ast.Name) and t.value.id == me and t.attr == attr
+        pairs = []
+        if isinstance(n, ast.AnnAssign) and n.value is not None:
+            pairs = [(n.target, n.value)]
+        elif isinstance(n, ast.Assign):
+            for t in n.targets:
+                if isinstance(t, (ast.Tuple, ast.List)) and isinstance(n.value, (ast.Tuple, ast.List)) and len(t.elts) == len(n.value.elts) \
+                        and not any(isinstance(x, ast.Starred) for x in list(t.elts) + list(n.value.elts)):
+                    pairs += list(zip(t.elts, n.value.elts))
+                else:
+                    pairs.append((t, n.value))
+        got = [v for t, v in pairs if is_attr(t)]
+        if len(got) == 1 and isinstance(got[0], ast.Name):
+            return got[0].id
+        return None
+
+    def dynamic(self, fd):
+        """first node through which fd may write attributes the analysis cannot see: setattr / vars / __dict__ / self handed to a call"""
+        me = self.self_name(fd)
+        for n in ast.walk(fd):
+            if isinstance(n, ast.Call):
+                f = n.func
+                if isinstance(f, ast.Name) and f.id in ('setattr', 'delattr', 'vars', 'exec', 'eval'):
+                    return n
+                is_super_init = (isinstance(f, ast.Attribute) and f.attr == '__init__' and isinstance(f.value, ast.Call)
+                                 and isinstance(f.value.func, ast.Name) and f.value.func.id == 'super')
+                for x in list(n.args) + [k.value for k in n.keywords]:
+                    if isinstance(x, ast.Starred):
+                        x = x.value
+                    if isinstance(x, ast.Name) and x.id == me and not (isinstance(f, ast.Name) and f.id in ('getattr', 'hasattr', 'isinstance', 'type', 'id')):
+                        return n
+                if isinstance(f, ast.Attribute) and f.attr == '__init__' and not is_super_init:
+                    return n
+            if isinstance(n, ast.Attribute) and n.attr == '__dict__':
+                return n
+        return None
+
+    def init_stores(self, key, owner, fd, depth=0):
+        """{param name: (tag, payload)} for the __init__ `fd` (defined in `owner`) run on an instance of `key`"""
+        ps = self.params(fd)
+        me = self.self_name(fd)
+        lines = self.mods[owner[0]]['src'].split('\n')
+
+        def trans(node):
+            ln = getattr(node, 'lineno', fd.lineno)
+            return ('Transformed', (ln, '%s:%d: %s' % (self.mods[owner[0]]['rel'], ln, ' '.join(lines[ln - 1].split()))))
+        dyn = self.dynamic(fd)
+        if dyn is not None or me is None or depth > 8:
+            return {p: trans(dyn if dyn is not None else fd) for p, _, _ in ps}
+        for hook in ('__setattr__', '__getattribute__', '__getattr__', '__delattr__'):
+            ho, hfd = self.find_method(key, hook)
+            if hfd is not None:
+                return {p: trans(fd) for p, _, _ in ps}        # attribute access is intercepted: nothing is known to be verbatim
+        if self.class_attr(key, '__slots__')[0]:
+            return {p: trans(fd) for p, _, _ in ps}
+        top = {id(s): i for i, s in enumerate(fd.body)}
+        writes = self.writes(fd)
+        # attribute writes of the methods __init__ calls on self (self.m(..)): they count as further, non-verbatim writes
+        called = []
+        for n in ast.walk(fd):
+            if isinstance(n, ast.Call) and isinstance(n.func, ast.Attribute) and isinstance(n.func.value, ast.Name) and n.func.value.id == me:
+                ok_, m = self.find_method(key, n.func.attr)
+                if m is not None:
+                    called += [(a, 'inplace', n) for a, _, _ in self.writes(m)]
+                    if self.dynamic(m) is not None:
+                        return {p: trans(n) for p, _, _ in ps}
+                else:
+                    return {p: trans(n) for p, _, _ in ps}       # an attribute that is called: unknown code
+        by_attr = {}
+        for a, kind, n in writes + called:
+            by_attr.setdefault(a, []).append((kind, n))
+        rebound = {}
+        for n in ast.walk(fd):
+            if isinstance(n, ast.Name) and isinstance(n.ctx, (ast.Store, ast.Del)):
+                rebound.setdefault(n.id, n)
+            if isinstance(n, ast.NamedExpr) and isinstance(n.target, ast.Name):
+                rebound.setdefault(n.target.id, n)
+        # the parameter object itself updated in place
+        touched = {}
+        for n in ast.walk(fd):
+            b = None
+            if isinstance(n, ast.Call) and isinstance(n.func, ast.Attribute) and n.func.attr in SIG_MUTATORS:
+                b = n.func.value
+            elif isinstance(n, ast.Subscript) and isinstance(n.ctx, (ast.Store, ast.Del)):
+                b = n.value
+            elif isinstance(n, ast.AugAssign):
+                b = n.target
+            while isinstance(b, ast.Subscript):
+                b = b.value
+            if isinstance(b, ast.Name):
+                touched.setdefault(b.id, n)
+        # the one top-level super().__init__(..) call
+        sup = [s for s in fd.body if isinstance(s, ast.Expr) and isinstance(s.value, ast.Call) and isinstance(s.value.func, ast.Attribute)
+               and s.value.func.attr == '__init__' and isinstance(s.value.func.value, ast.Call)
+               and isinstance(s.value.func.value.func, ast.Name) and s.value.func.value.func.id == 'super' and not s.value.func.value.args]
+        all_sup = [n for n in ast.walk(fd) if isinstance(n, ast.Call) and isinstance(n.func, ast.Attribute) and n.func.attr == '__init__'
+                   and isinstance(n.func.value, ast.Call) and isinstance(n.func.value.func, ast.Name) and n.func.value.func.id == 'super']
+        handed, base_writes = {}, set()
+        if all_sup:
+            if len(sup) != 1 or len(all_sup) != 1:
+                return {p: trans(all_sup[0]) for p, _, _ in ps}
+            call = sup[0].value
+            bo, bfd = self.find_method(key, '__init__', after=owner)
+            if bfd is None:
+                if self.external_bases(key):
+                    return {p: trans(call) for p, _, _ in ps}
+                bst, bps = {}, []
+            else:
+                bst = self.init_stores(key, bo, bfd, depth + 1)
+                bps = self.params(bfd)
+                for a, _, _ in self.writes(bfd):
+                    base_writes.add(a)
+                sub = bfd
+                seen_ = 0
+                while sub is not None and seen_ < 8:      # attributes written further up the chain
+                    seen_ += 1
+                    o2, f2 = self.find_method(key, '__init__', after=bo)
+                    if f2 is None or not any(isinstance(n, ast.Call) and isinstance(n.func, ast.Attribute) and n.func.attr == '__init__' for n in ast.walk(sub)):
+                        break
+                    for a, _, _ in self.writes(f2):
+                        base_writes.add(a)
+                    bo, sub = o2, f2
+            if any(isinstance(x, ast.Starred) for x in call.args) or any(k.arg is None for k in call.keywords):
+                return {p: trans(call) for p, _, _ in ps}
+            posn = [b for b in bps if b[1] in ('PPos', 'PPosOnly')]
+            for i, x in enumerate(call.args):
+                if isinstance(x, ast.Name) and i < len(posn):
+                    handed.setdefault(x.id, []).append(posn[i][0])
+            for k in call.keywords:
+                if isinstance(k.value, ast.Name) and any(b[0] == k.arg and b[1] in ('PPos', 'PKwOnly') for b in bps):
+                    handed.setdefault(k.value.id, []).append(k.arg)
+        out = {}
+        for p, kind, _ in ps:
+            if kind in ('PVarPos', 'PVarKw'):
+                reads = [n for n in ast.walk(fd) if isinstance(n, ast.Name) and n.id == p and isinstance(n.ctx, ast.Load)]
+                out[p] = trans(min(reads, key=lambda n: (n.lineno, n.col_offset))) if reads else ('NotStored', None)
+                continue
+            reads = sorted((n for n in ast.walk(fd) if isinstance(n, ast.Name) and n.id == p and isinstance(n.ctx, ast.Load)),
+                           key=lambda n: (n.lineno, n.col_offset))
+            if p in rebound:
+                out[p] = trans(rebound[p])
+                continue
+            if p in touched:
+                out[p] = trans(touched[p])
+                continue
+            # verbatim stores of p: top-level `self.a = p` (also `self.a: T = p`, `self.a, self.b = p, q`, `self.a = self.b = p`)
+            verb = [(a, n) for a, lst in by_attr.items() for kind_, n in lst
+                    if kind_ == 'assign' and id(n) in top and self.stored_value(n, a, me) == p]
+            own = by_attr.get(p, [])
+            if own and self.find_method(key, p)[1] is not None:
+                out[p] = trans(self.find_method(key, p)[1])       # the class defines p as a method / property: the store goes through it
+                continue
+            if own:
+                if len(own) == 1 and any(a == p and n is own[0][1] for a, n in verb) and p not in base_writes:
+                    out[p] = ('Stored', None)
+                else:
+                    bad = [n for kind_, n in own if not any(a == p and n is m for a, m in verb)]
+                    out[p] = trans(bad[0] if bad else own[-1][1])
+                continue
+            if p in handed and len(handed[p]) == 1:
+                q = handed[p][0]
+                tag, pay = bst.get(q, ('NotStored', None))
+                target = q if tag == 'Stored' else pay if tag == 'StoredAs' else None
+                if target is not None and target not in by_attr:
+                    out[p] = ('Stored', None) if target == p else ('StoredAs', target)
+                    continue
+                out[p] = trans(sup[0])
+                continue
+            others = [(a, n) for a, n in verb if a != p]
+            if len(others) == 1 and len(by_attr[others[0][0]]) == 1 and others[0][0] not in base_writes:
+                out[p] = ('StoredAs', others[0][0])
+                continue
+            out[p] = trans(reads[0]) if reads else ('NotStored', None)
+        return out
+
+    # ---- one class
+    def describe(self, key):
+        node = self.node(key)
+        mod = self.mods[key[0]]
+        dec, other_decs = self.decorated(key)
+        info = dict(name=key[0] + '.' + key[1], module=key[0], short=key[1], line=node.lineno, source=mod['rel'],
+                    bases=[a + '.' + b for a, b in self.bases(key)[0]], external_bases=self.external_bases(key),
+                    other_decorators=other_decs)
+        # to_dict
+        kind, frm, keys_owner = 'TDNone', '', None
+        for k in self.mro(key):
+            d, od = self.decorated(k)
+            hand = 'to_dict' in self.methods(k) or 'from_dict' in self.methods(k)
+            if d:
+                kind, frm, keys_owner = ('TDDecorated' if k == key else 'TDInherited'), k[0] + '.' + k[1], k
+                break
+            if hand:
+                kind, frm = ('TDHand' if k == key else 'TDHandInherited'), k[0] + '.' + k[1]
+                break
+            if od:
+                kind, frm = 'TDUnknown', k[0] + '.' + k[1]      # a decorator the analysis does not know may add anything
+                break
+        info['todict'], info['todict_from'] = kind, frm
+        info['from_dict'] = self.find_method(key, 'from_dict')[1] is not None
+        keys, keys_note = [], ''
+        if keys_owner is not None:
+            found, val = self.class_attr(keys_owner, 'serialize_params')
+            if found:
+                if isinstance(val, (ast.List, ast.Tuple)) and all(isinstance(x, ast.Constant) and isinstance(x.value, str) for x in val.elts):
+                    keys, keys_note = [x.value for x in val.elts], 'serialize_params'
+                else:
+                    keys, keys_note, info['todict'] = [], 'serialize_params is not a list of string literals', 'TDUnknown'
+            else:
+                io, ifd = self.find_method(keys_owner, '__init__')
+                if ifd is None:
+                    if self.external_bases(keys_owner):
+                        keys, keys_note, info['todict'] = [], 'constructor inherited from outside votelib', 'TDUnknown'
+                    else:
+                        keys, keys_note = [], 'object.__init__'
+                else:
+                    keys = [p for p, _, _ in self.params(ifd, skip_first=False) if p != 'self']
+                    keys_note = '__init__ of %s.%s' % io
+        info['keys'], info['keys_from'] = keys, keys_note
+        # constructor
+        io, ifd = self.find_method(key, '__init__')
+        if ifd is None:
+            info['init_from'] = '<external>' if self.external_bases(key) else ''
+            info['params'] = []
+        else:
+            info['init_from'] = io[0] + '.' + io[1]
+            st = self.init_stores(key, io, ifd)
+            info['params'] = [dict(name=p, kind=k, default=list(d), store=list(st[p])) for p, k, d in self.params(ifd)]
+        # mutation sites: the definition of each method that an instance of the class sees
+        muts, seen = [], set()
+        for k in self.mro(key):
+            for mname, m in self.methods(k).items():
+                if mname in seen:
+                    continue
+                seen.add(mname)
+                if mname == '__init__' or any(isinstance(d, ast.Name) and d.id in ('staticmethod', 'classmethod') for d in m.decorator_list):
+                    continue
+                for a, wkind, n in self.writes(m):
+                    e = (mname, a, wkind)
+                    if e not in muts:
+                        muts.append(e)
+        info['mutations'] = [list(e) for e in muts]
+        found, val = self.class_attr(key, 'accepts_seats')
+        info['accepts_seats_attr'] = (val.value if found and isinstance(val, ast.Constant) and isinstance(val.value, bool) else
+                                      'other' if found else None)
+        info['methods'] = []
+        for mname in SIG_METHODS:
+            mo, m = self.find_method(key, mname)
+            if m is not None:
+                info['methods'].append(dict(name=mname, owner=mo[0] + '.' + mo[1],
+                                            params=[dict(name=p, kind=k, default=list(d)) for p, k, d in self.params(m)]))
+        return info
+
+    def mutable_defaults(self):
+        """every function / method of the package: default arguments that are mutable displays"""
+        out = []
+        for mname in self.mods:
+            m = self.mods[mname]
+
+            def visit(node, prefix):
+                for ch in ast.iter_child_nodes(node):
+                    if isinstance(ch, ast.ClassDef):
+                        visit(ch, prefix + [ch.name])
+                    elif isinstance(ch, (ast.FunctionDef, ast.AsyncFunctionDef)):
+                        a = ch.args
+                        pos = a.posonlyargs + a.args
+                        pairs = list(zip(pos[len(pos) - len(a.defaults):], a.defaults)) + \
+                            [(k, d) for k, d in zip(a.kwonlyargs, a.kw_defaults) if d is not None]
+                        for arg, d in pairs:
+                            via = None
+                            if isinstance(d, ast.Name) and d.id in self.consts.get(mname, {}):
+                                via, d = d.id, self.consts[mname][d.id]       # a module-level constant used as the default
+                            if _sig_mutable_default(d):
+                                out.append(dict(module=mname, qualname='.'.join(prefix + [ch.name]), param=arg.arg,
+                                                source=ast.unparse(d), line=d.lineno, local='<locals>' in '.'.join(prefix), via=via))
+                        visit(ch, prefix + [ch.name + '.<locals>'])
+            visit(m['tree'], [])
+        return out
+
+
+def _sig_mutable_default(d):
+    return isinstance(d, (ast.Dict, ast.List, ast.Set, ast.ListComp, ast.DictComp, ast.SetComp)) or (
+        isinstance(d, ast.Call) and isinstance(d.func, ast.Name)
+        and d.func.id in ('dict', 'list', 'set', 'defaultdict', 'Counter', 'OrderedDict', 'bytearray', 'deque'))
+
+
+def _coq_str(s):
+    s = ''.join(c if 32 <= ord(c) < 127 else '?' for c in str(s))
+    return '"%s"' % s.replace('"', '""')
+
+
+def _coq_default(d):
+    tag, pay = d
+    if tag in ('DReq', 'DNone', 'DEmptyDict', 'DEmptyList'):
+        return tag
+    if tag == 'DBool':
+        return '(DBool %s)' % ('true' if pay else 'false')
+    if tag == 'DInt':
+        return '(DInt (%d))' % pay
+    return '(%s %s)' % (tag, _coq_str(pay))
+
+
+def _coq_store(s):
+    tag, pay = s
+    if tag in ('Stored', 'NotStored'):
+        return tag
+    if tag == 'StoredAs':
+        return '(StoredAs %s)' % _coq_str(pay)
+    return '(Transformed (%d) %s)' % (pay[0], _coq_str(pay[1]))
+
+
+def _coq_list(items, indent='    '):
+    items = list(items)
+    if not items:
+        return '[]'
+    return '[' + (';\n' + indent + ' ').join(items) + ']'
+
+
+SIG_HEADER = """(* GENERATED by tools/py2v.py (part 5) from votelib/**/*.py -- do not edit.
+   One record per class: how to_dict comes about and which keys it emits, the constructor parameters with the way __init__ stores
+   each of them, the methods that write attributes after construction, the accepts_seats class attribute, the parameter lists of
+   evaluate / convert / validate; and the list of shared mutable default arguments of the whole package.  The reading rules are in
+   the comment above class SigTables in tools/py2v.py; what is not recognised as a verbatim store is Transformed. *)
+From Coq Require Import ZArith List String Bool.
+Import ListNotations.
+Open Scope string_scope.
+
+Inductive store := Stored | StoredAs (attr : string) | Transformed (line : Z) (src : string) | NotStored.
+Inductive pkind := PPosOnly | PPos | PVarPos | PKwOnly | PVarKw.
+Inductive dflt := DReq | DNone | DBool (b : bool) | DInt (z : Z) | DStr (s : string) | DEmptyDict | DEmptyList
+                | DMutable (src : string) | DOther (src : string).
+Inductive tdkind := TDDecorated | TDInherited | TDHand | TDHandInherited | TDUnknown | TDNone.
+Record param := { p_name : string; p_kind : pkind; p_default : dflt; p_store : store }.
+Record mparam := { mp_name : string; mp_kind : pkind; mp_default : dflt }.
+Record msig := { m_name : string; m_owner : string; m_params : list mparam }.
+Record cls := {
+  c_name : string;                     (* module.Class, as persist.scoped_class_name gives it *)
+  c_module : string;
+  c_todict : tdkind;
+  c_todict_from : string;              (* the decorated class / the class defining to_dict *)
+  c_from_dict : bool;                  (* the class (or a base) defines from_dict: persist.deserialize_class calls it instead of the constructor *)
+  c_keys : list string;                (* keys of to_dict besides 'class' (decorated classes) *)
+  c_init_from : string;                (* the class whose __init__ runs; "" = object.__init__ *)
+  c_params : list param;               (* without self *)
+  c_mutations : list (string * string * bool);   (* (method, attribute, in place?) written after construction *)
+  c_accepts_seats : option bool;       (* class attribute read by core.accepts_seats *)
+  c_methods : list msig                (* evaluate / convert / validate as the class resolves them (without self) *)
+}.
+"""
+
+
+def generate_signatures(repo):
+    tb = SigTables(repo)
+    infos = [tb.describe(k) for k in tb.keys]
+    muts = tb.mutable_defaults()
+    recs = []
+    for c in infos:
+        ps = _coq_list(('{| p_name := %s; p_kind := %s; p_default := %s; p_store := %s |}'
+                        % (_coq_str(p['name']), p['kind'], _coq_default(p['default']), _coq_store(p['store'])) for p in c['params']), '       ')
+        ms = _coq_list(('{| m_name := %s; m_owner := %s; m_params := %s |}' % (
+            _coq_str(m['name']), _coq_str(m['owner']),
+            _coq_list(('{| mp_name := %s; mp_kind := %s; mp_default := %s |}' % (_coq_str(p['name']), p['kind'], _coq_default(p['default']))
+                       for p in m['params']), '          ')) for m in c['methods']), '       ')
+        acc = c['accepts_seats_attr']
+        recs.append('  {| c_name := %s; c_module := %s; c_todict := %s; c_todict_from := %s; c_from_dict := %s;\n     c_keys := %s;\n     c_init_from := %s;\n'
+                    '     c_params := %s;\n     c_mutations := %s;\n     c_accepts_seats := %s;\n     c_methods := %s |}'
+                    % (_coq_str(c['name']), _coq_str(c['module']), c['todict'], _coq_str(c['todict_from']), 'true' if c['from_dict'] else 'false',
+                       _coq_list((_coq_str(k) for k in c['keys']), '       '), _coq_str(c['init_from']), ps,
+                       _coq_list(('(%s, %s, %s)' % (_coq_str(m), _coq_str(a), 'true' if w == 'inplace' else 'false') for m, a, w in c['mutations']), '       '),
+                       'Some true' if acc is True else 'Some false' if acc is False else 'None', ms))
+    text = SIG_HEADER + '\nDefinition classes : list cls := [\n' + ';\n'.join(recs) + '\n].\n\n'
+    text += ('(* (module, qualified name, parameter, source of the default) of every default argument of the package that is a mutable\n'
+             '   display; functions nested in functions carry <locals> in the name *)\n'
+             'Definition mutable_defaults : list (string * string * string * string) := %s.\n'
+             % _coq_list(('(%s, %s, %s, %s)' % (_coq_str(e['module']), _coq_str(e['qualname']), _coq_str(e['param']), _coq_str(e['source']))
+                          for e in muts), '  '))
+    return text, infos, muts
+
+
 def main():
     repo, outdir = sys.argv[1], sys.argv[2]
     os.makedirs(outdir, exist_ok=True)
@@ -1631,6 +2325,26 @@ def main():
         old = open(dst).read() if os.path.exists(dst) else None
         if old != text:
             open(dst, 'w').write(text)
+    # part 5: class / signature tables of the whole package
+    dst = os.path.join(outdir, 'Signatures.v')
+    jdst = os.path.join(outdir, 'Signatures.json')
+    try:
+        text, infos, muts = generate_signatures(repo)
+        ser = [c for c in infos if c['todict'] != 'TDNone']
+        st['Signatures'] = dict(status='ok', source='votelib/**/*.py', functions={}, missing=[], classes=len(infos), serialisable=len(ser),
+                                parameters=sum(len(c['params']) for c in ser),
+                                stores={k: sum(1 for c in ser for p_ in c['params'] if p_['store'][0] == k)
+                                        for k in ('Stored', 'StoredAs', 'Transformed', 'NotStored')},
+                                mutable_defaults=len(muts))
+        jtext = json.dumps(dict(classes=infos, mutable_defaults=muts), indent=1, sort_keys=True)
+    except (Unsupported, SyntaxError, OSError, RecursionError) as e:
+        text = SIG_HEADER + '\nDefinition classes : list cls := [].\nDefinition mutable_defaults : list (string * string * string * string) := [].\n'
+        jtext = json.dumps(dict(classes=[], mutable_defaults=[], failed=str(e)))
+        st['Signatures'] = dict(status='failed', reason=str(e), source='votelib/**/*.py', missing=['classes'])
+    for path_, t_ in ((dst, text), (jdst, jtext)):
+        old = open(path_).read() if os.path.exists(path_) else None
+        if old != t_:
+            open(path_, 'w').write(t_)
     json.dump(st, open(os.path.join(outdir, 'STATUS.json'), 'w'), indent=1)
     print(json.dumps(st, indent=1))
 
